@@ -15,7 +15,8 @@
      orbit_walk_hd_unique   two closed orbits that start with the same dart are equal
      polygon_is_face        all_faces L' lists pwalk u0 for some u0
      polygon_is_plaquette_partial   ... and find_all_plaquettes L' reports it, PROVIDED its coded winding
-                            number is -1 (not proved here: the third filter of walk_valid)
+                            number is -1 (the third filter of walk_valid; that hypothesis is discharged in
+                            Proofs/TruncateFacesWinding.v: polygon_winding, polygon_is_plaquette)
      corner_detour_partial  local form of "every old plaquette enlarged by one side per truncated corner" *)
 From Coq Require Import List ZArith Bool Arith Lia ZifyBool Permutation Sorted.
 From Koala Require Import Model.Lattice Model.Truncate Proofs.LatticeFacts Proofs.TruncateFacts
@@ -409,8 +410,9 @@ Proof.
 Qed.
 
 (* PARTIAL: reported as a plaquette, provided the third filter (coded winding number = -1) passes for the
-   rotations of the walk.  Missing: a proof that winding (map dvec (pwalk u0)) = -1 follows from turns_cw
-   and the sortedness of sorted_adj L v. *)
+   rotations of the walk.  Missing HERE: that winding (map dvec (pwalk u0)) = -1 follows from turns_cw and the
+   sortedness of sorted_adj L v; this is proved in Proofs/TruncateFacesWinding.v (polygon_winding), which then
+   states the unconditional polygon_is_plaquette. *)
 Theorem polygon_is_plaquette_partial :
   (forall u0, u0 < d -> winding (map (dvec L') (pwalk L vs v u0)) = (-1)%Z) ->
   exists ps, find_all_plaquettes L' = Some ps /\
@@ -587,7 +589,8 @@ Proof.
   split; [exact F1|]. split; [exact F2|apply polygon_area_positive; assumption].
 Qed.
 
-(* PARTIAL (see polygon_is_plaquette_partial): reported by find_all_plaquettes, given the winding-number filter *)
+(* PARTIAL (see polygon_is_plaquette_partial): reported by find_all_plaquettes, given the winding-number filter;
+   the unconditional statement is truncate_polygon_is_plaquette in Proofs/TruncateFacesWinding.v *)
 Theorem truncate_polygon_is_plaquette_partial (L : lattice) (vs : option (list nat)) (v : nat) :
   wf_lattice L = true -> no_self_loops L = true -> v < nV L -> is_truncated L vs v = true ->
   turns_cw L v = true ->
